@@ -100,6 +100,10 @@ func (e *Engine) spawnAtomic(st *State, f FuncV, site string) {
 }
 
 func (e *Engine) spawnFunc(st *State, f FuncV, site string) {
+	if st.Th == nil && e.GoPolicy == "coro" {
+		e.addCoro(st, &ssa.CallCommon{}, f, nil, nil, site)
+		return
+	}
 	if st.Th == nil && e.GoPolicy == "inline" {
 		// the goroutine runs to completion at once: one legal schedule (the only one examined)
 		e.Notes = append(e.Notes, "goroutine started at "+site+" runs to completion immediately (single schedule)")
@@ -147,6 +151,10 @@ func (e *Engine) runDeferredGo(st *State) {
 }
 
 func (e *Engine) spawnGo(st *State, cc *ssa.CallCommon, fnv, recv Value, args []Value, site string) {
+	if st.Th == nil && e.GoPolicy == "coro" {
+		e.addCoro(st, cc, fnv, recv, args, site)
+		return
+	}
 	if st.Th == nil && e.GoPolicy == "defer" {
 		e.Notes = append(e.Notes, "goroutine started at "+site+" runs when the harness says so (vfRunGoroutines)")
 		e.goDeferred = append(e.goDeferred, deferredGo{cc, fnv, recv, args, site, st.G})
